@@ -237,7 +237,8 @@ def parse_vspec(path):
 
 def run_vx(plan):
     os.makedirs(BUILD, exist_ok=True)
-    pf = os.path.join(BUILD, "plan_%d.json" % os.getpid())
+    import uuid
+    pf = os.path.join(BUILD, "plan_%s.json" % uuid.uuid4().hex)
     with open(pf, "w") as f:
         json.dump(plan, f)
     try:
